@@ -1246,6 +1246,148 @@ impl Sess {
         reset_time();
     }
 
+    /// Message-level episode with two peers: peer A announces the next block honestly (the node
+    /// lacks its transactions and asks A for them); peer B announces the SAME header with a
+    /// different body (extra short ids and/or extra uncle hashes), is asked for B's missing
+    /// indexes, and answers with a BlockTransactions message. The node keeps only the first
+    /// compact block per hash, so B's indexes do not fit it. Whatever the node makes of it, the
+    /// handler must not panic, no unannounced block may become the tip, and the honest answer of
+    /// peer A must still get the block accepted.
+    fn two_peer_episode(&mut self, r: &mut Report, uncles_variant: bool) {
+        let mut found: Option<BlockView> = None;
+        for _ in 0..12 {
+            if self.dead {
+                return;
+            }
+            let p = self.tg.tip();
+            let x = self.tg.extend(&p);
+            let xb = (*self.tg.rc.get(&x).block).clone();
+            if xb.transactions().len() >= 2 {
+                found = Some(xb);
+                break;
+            }
+            if !self.deliver(&x, r, true) {
+                return;
+            }
+        }
+        let Some(xb) = found else {
+            r.count("msg2.no_block_with_transactions");
+            return;
+        };
+        r.count("msg2.episodes");
+        vnode::node::set_time(xb.timestamp() + 1_000);
+        let reset_time = || vnode::node::set_time(ChainParams::default().genesis_timestamp + 3_000_000_000);
+        self.dead = true;
+        let honest = packed::CompactBlock::build_from_block(&xb, &HashSet::new());
+        // peer B's body: same header, 10 more short ids and (variant) 5 more uncle hashes
+        let mut ids: Vec<packed::ProposalShortId> = honest.short_ids().into_iter().collect();
+        for i in 0..10u8 {
+            let mut b = [0xEEu8; 10];
+            b[0] = i;
+            ids.push(packed::ProposalShortId::new(b));
+        }
+        let mut uncle_hashes: Vec<packed::Byte32> = honest.uncles().into_iter().collect();
+        if uncles_variant {
+            // as many unknown uncles as the consensus limit leaves room for
+            let room = self.n.shared.consensus().max_uncles_num().saturating_sub(uncle_hashes.len());
+            for i in 0..room as u8 {
+                uncle_hashes.push(packed::Byte32::new([0xD0 + i; 32]));
+            }
+        }
+        let other = honest.clone().as_builder().short_ids(ids).uncles(uncle_hashes).build();
+        let nc = Arc::new(netctx::RecordingContext::new(SupportProtocols::RelayV3));
+        let (pa, pb): (PeerIndex, PeerIndex) = (7usize.into(), 8usize.into());
+        let send = |this: &mut Self, peer: PeerIndex, m: ckb_types::bytes::Bytes| {
+            let nc1: Arc<dyn ckb_network::CKBProtocolContext + Sync> = nc.clone();
+            let rt = &this.rt;
+            let relayer = &mut this.n.relayer;
+            catch_unwind(AssertUnwindSafe(|| rt.block_on(relayer.received(nc1, peer, m))))
+        };
+        let wit = |this: &Self, extra: serde_json::Value| this.witness(json!({"block": vbase::hex(xb.hash().as_slice()), "transactions": xb.transactions().len(), "uncles": xb.uncles().hashes().len(), "variant": if uncles_variant { "extra short ids and extra uncle hashes" } else { "extra short ids" }, "detail": extra}));
+        let steps: Vec<(&str, PeerIndex, ckb_types::bytes::Bytes)> = vec![
+            ("compact_block_from_first_peer", pa, packed::RelayMessage::new_builder().set(honest.clone()).build().as_bytes()),
+            ("compact_block_same_header_other_body_from_second_peer", pb, packed::RelayMessage::new_builder().set(other).build().as_bytes()),
+        ];
+        for (name, peer, m) in steps {
+            if let Err(pn) = send(self, peer, m) {
+                let _ = hooks::take_panics();
+                let msg = panic_msg(&pn);
+                r.violation(&format!("relay.received_panicked@{name}"), format!("Relayer::received panicked: {msg}"), wit(self, json!({"panic": msg})));
+                reset_time();
+                return;
+            }
+        }
+        let asked = {
+            let t0 = Instant::now();
+            loop {
+                let a = nc.get_block_transactions_requests();
+                if a.len() >= 2 || t0.elapsed() > Duration::from_secs(5) {
+                    break a;
+                }
+                std::thread::sleep(Duration::from_millis(1));
+            }
+        };
+        r.eval();
+        if asked.len() < 2 {
+            // the second announcement was refused outright: nothing further to ask of the node
+            r.count("msg2.second_announcement_not_pending");
+        } else {
+            r.count("msg2.second_peer_pending");
+            // peer B answers its request: the block's real transactions (and uncles)
+            let (ask_txs, ask_uncles) = asked[1].clone();
+            let txs: Vec<packed::Transaction> = xb.transactions().iter().skip(1).map(|t| t.data()).collect();
+            let n_unc = if uncles_variant { ask_uncles.len().min(xb.uncles().hashes().len().max(1)) } else { 0 };
+            let uncles: Vec<packed::UncleBlock> = xb.uncles().data().into_iter().take(n_unc).collect();
+            let bt = packed::BlockTransactions::new_builder().block_hash(xb.hash()).transactions(txs).uncles(uncles).build();
+            r.distinct_str(&format!("msg2|{uncles_variant}|{}|{}", ask_txs.len(), ask_uncles.len()));
+            if let Err(pn) = send(self, pb, packed::RelayMessage::new_builder().set(bt).build().as_bytes()) {
+                let _ = hooks::take_panics();
+                let msg = panic_msg(&pn);
+                r.count("msg2.outcome.panic");
+                r.violation(
+                    "relay.received_panicked@block_transactions_from_second_peer_with_other_body",
+                    format!("Relayer::received panicked on the BlockTransactions answer of a second peer that had announced the same header with a different body (asked for transactions {ask_txs:?}, uncles {ask_uncles:?}): {msg}"),
+                    wit(self, json!({"asked_of_second_peer": {"transactions": ask_txs, "uncles": ask_uncles}, "panic": msg})),
+                );
+                reset_time();
+                return;
+            }
+            r.count("msg2.outcome.second_peer_answer_handled");
+        }
+        // no unannounced block may have become the tip
+        std::thread::sleep(Duration::from_millis(50));
+        let tip = self.n_tip();
+        if tip != h(&xb.parent_hash()) && tip != h(&xb.hash()) {
+            r.violation("relay.unannounced_block_became_tip@two_peers", format!("tip is {} after the two-peer episode", hx(&tip)), wit(self, json!({})));
+            reset_time();
+            return;
+        }
+        // control: the first peer's honest answer (all transactions) completes the block
+        if tip != h(&xb.hash()) {
+            let first = asked.first().cloned().unwrap_or_default();
+            let txs: Vec<packed::Transaction> = first.0.iter().filter_map(|i| xb.transactions().get(*i as usize).map(|t| t.data())).collect();
+            let uncles: Vec<packed::UncleBlock> = first.1.iter().filter_map(|i| xb.uncles().get(*i as usize).map(|u| u.data())).collect();
+            let bt = packed::BlockTransactions::new_builder().block_hash(xb.hash()).transactions(txs).uncles(uncles).build();
+            if let Err(pn) = send(self, pa, packed::RelayMessage::new_builder().set(bt).build().as_bytes()) {
+                let _ = hooks::take_panics();
+                let msg = panic_msg(&pn);
+                r.violation("relay.received_panicked@block_transactions_from_first_peer_after_second_peer", format!("Relayer::received panicked: {msg}"), wit(self, json!({"panic": msg})));
+                reset_time();
+                return;
+            }
+            let t0 = Instant::now();
+            while self.n_tip() != h(&xb.hash()) && t0.elapsed() < Duration::from_secs(10) {
+                std::thread::sleep(Duration::from_millis(1));
+            }
+        }
+        if self.n_tip() == h(&xb.hash()) {
+            r.count("msg2.outcome.honest_block_accepted");
+        } else {
+            r.count("msg2.outcome.honest_block_not_accepted_in_10s");
+        }
+        reset_time();
+    }
+
     /// Message-level episode through `Relayer::received` with a recording protocol context:
     /// CompactBlock with an uncle N does not know (all transactions prefilled) -> the node asks
     /// for the uncle -> BlockTransactions answering with the uncle (control) or with FEWER
@@ -1465,9 +1607,11 @@ fn run_session(si: u64, rng: &mut Rng, r: &mut Report, deadline: Instant, rounds
         s.round(r, variants);
     }
     if !s.dead {
-        match si % 3 {
+        match si % 5 {
             0 => s.message_episode(r, true),
             1 => s.message_episode(r, false),
+            2 => s.two_peer_episode(r, false),
+            3 => s.two_peer_episode(r, true),
             _ => s.forge_episode(r),
         }
     }
